@@ -31,6 +31,11 @@ Theorem C16_src_shape_ok :
   tp_remove_on_write_fail src_params = true /\ tp_rollback src_params = true /\ tp_defer_cleanup src_params = true.
 Proof. exact (conj eq_refl (conj eq_refl eq_refl)). Qed.
 
+(* PrepareEnvironment cannot fail any more once createTemporaryFiles has succeeded (the model has no such exit: the
+   caller learns the paths only from the successful return, so a later error return would orphan the files) *)
+Theorem C16_src_prepare_has_no_late_error : src_prepare_no_late_error = true.
+Proof. exact eq_refl. Qed.
+
 (* ---- all_removed_on_return --------------------------------------------------------------------------------
    Whatever fails and whatever the child does (exit 0, exit 1, cannot start, deletes its files): a file that is in
    the file system when `esc run` returns was there before with the same content, or its own Remove was made to
